@@ -199,7 +199,7 @@ pub fn run(ctx: &RunCtx) -> PropResult {
     let runf = |c: &Case, d: &Path| run_sync(c, d, &findings);
     run_replays::<Case, _>(ctx, "sync", &ctx.verif_dir.join("replays").join("C12"), runf, &mut report);
     let runf = |c: &Case, d: &Path| run_sync(c, d, &findings);
-    run_generated(ctx, "sync", ctx.tier.pick(2000, 40_000), sync_strategy, runf, &sample, &mut report);
+    run_generated(ctx, "sync", ctx.tier.pick(4000, 40_000), sync_strategy, runf, &sample, &mut report);
     PropResult {
         report,
         level: "exploration",
